@@ -40,7 +40,7 @@ def gen_case(rng, tier, avoid):
             if rng.random() < 0.3:
                 rc['layout'] = 'view'
             if rng.random() < 0.25:
-                op['kwargs']['cast_dtype'] = {'$dtype': gen.pick(rng, SAFE_CASTS[rc['dtype'][1:]])}
+                op['kwargs']['cast_dtype'] = gen.cast_literal(rng, gen.pick(rng, SAFE_CASTS[rc['dtype'][1:]]))
     kind = gen.pick(rng, ['inline', 'dict', 'struct', 'struct', 'h5'])
     ops, data = spec.ops, None
     if kind != 'inline':
